@@ -259,5 +259,15 @@ theorem inverse_eq_adjugate {n : ℕ} (A : M F (n+1)) (hd : (toMatrix A).det ≠
       Matrix.adjugate_fin_succ_eq_det_submatrix, zero_sub]
     ring
 
+/-! ### the Laplace reference oracle -/
+
+theorem laplace_eq {n : ℕ} (A : M F n) : laplace n A = (toMatrix A).det := by
+  induction n with
+  | zero => simp [laplace]
+  | succ n ih =>
+    rw [laplace, Matrix.det_succ_row_zero, Fin.sum_univ_def]
+    simp only [FieldOps.ofField_sum, FieldOps.ofField_mul, FieldOps.ofField_pow, FieldOps.ofField_sub,
+      FieldOps.ofField_zero, FieldOps.ofField_one, zero_sub, ih, toMatrix_minor, toMatrix_apply, Fin.succAbove_zero]
+
 end Mat
 end SlVerif
